@@ -991,6 +991,45 @@ static void runHrpf(const Case &c) {
   delete d;
 }
 
+// HASHHF / HASHUFFDAC as their hash layer sees them: the keys are the Huffman-coded strings (codewords
+// exported), the table size, the occupancy bitmap and the code's own answers; the Lean driver re-encodes
+// every string with the model of StatCoder::encodeString and predicts every ID (`hhchk`).
+#include "StringDictionaryHASHHF.h"
+#include "StringDictionaryHASHUFFDAC.h"
+static void runHhf(const Case &c) {
+  StringDictionary *d = construct(c);
+  if (!d) { emit("ERR cannot-construct"); return; }
+  for (auto &op : c.ops) {
+    g_op++;
+    if (op[0] == "reload") {
+      string img = saveImage(d);
+      std::stringstream ss(img, std::ios::in | std::ios::binary);
+      StringDictionary *d2 = loadOwn(c.kind, ss, 1);
+      delete d; d = d2;
+      emit("RQ reloaded");
+      if (!d) return;
+    } else if (op[0] == "hh") { // hh <query hex,...|->
+      Codeword *cw = nullptr; size_t ts = 0; cds_static::BitSequence *bm = nullptr;
+      if (c.kind == "HASHHF") { auto *x = (StringDictionaryHASHHF *)d; cw = x->codewords; ts = x->hash->tsize; bm = x->hash->b_ht; }
+      else { auto *x = (StringDictionaryHASHUFFDAC *)d; cw = x->codewords; ts = x->hash->tsize; bm = x->hash->b_ht; }
+      string scw, occ, loc, qa;
+      for (uint i = 0; i < 256; i++) { char b[40]; snprintf(b, sizeof b, "%s%u:%x", i ? "," : "", cw[i].bits, cw[i].codeword); scw += b; }
+      for (size_t i = 0; i < ts; i++) occ += bm->access(i) ? '1' : '0';
+      for (size_t i = 0; i < c.strs.size(); i++) {
+        string q = c.strs[i]; q.push_back('\0');
+        loc += (i ? "," : "") + std::to_string(d->locate((uchar *)q.data(), (uint)c.strs[i].size()));
+      }
+      if (op.size() > 1 && op[1] != "-")
+        for (auto &h : splitc(op[1])) {
+          string q = unhex(h); size_t n = q.size(); q.push_back('\0');
+          qa += (qa.empty() ? "" : ",") + std::to_string(d->locate((uchar *)q.data(), (uint)n));
+        }
+      emit("HH ts=%zu occ=%s cw=%s loc=%s abs=%s", ts, occ.empty() ? "-" : occ.c_str(), scw.c_str(), loc.empty() ? "-" : loc.c_str(), qa.empty() ? "-" : qa.c_str());
+    } else emit("ERR unknown-op");
+  }
+  delete d;
+}
+
 
 // The chunked decoding table(s) of a real dictionary as `processChunk` sees them: codewords, the
 // position table (run-length coded, with the `endings` bit), the distinct stream entries, the
@@ -1170,6 +1209,7 @@ static void runCase(const Case &c) {
   else if (c.stream == "chunks") runChunks(c);
   else if (c.stream == "sweep") runSweep(c);
   else if (c.stream == "rpdac") { if (c.kind == "HASHRPDAC") runHrpdac(c); else if (c.kind == "HASHRPF") runHrpf(c); else runRpdac(c); }
+  else if (c.stream == "hhf") runHhf(c);
   else emit("ERR unknown-stream %s", c.stream.c_str());
 }
 
